@@ -144,4 +144,112 @@ theorem preserveRedirs_save (t : FdTable) (ss : List SavedFd) (fd : Fd)
       · subst heq; exact absurd hsv hs
       · exact ih _ ⟨s', hmem, hsv⟩
 
+/-! ### the loop looked at after every item (`performSteps`) and the frame of a whole list -/
+
+/-- entry `i` of `performSteps` is the state `performRedirs` reaches on the first `i+1` items -/
+theorem performSteps_prefix (o : Oracle W) (w : W) (t : FdTable) (rs : List Redir) (i : Nat) (p : W × FdTable)
+    (h : (performSteps o w t rs)[i]? = some p) :
+    i < rs.length ∧
+    p = ((performRedirs o w t (rs.take (i+1))).w, (performRedirs o w t (rs.take (i+1))).t) := by
+  induction rs generalizing w t i with
+  | nil => simp [performSteps] at h
+  | cons r rs ih =>
+    cases hp : (perform o w t r).r with
+    | error e =>
+      simp only [performSteps, hp] at h
+      cases i with
+      | zero =>
+        simp only [List.getElem?_cons_zero, Option.some.injEq] at h
+        refine ⟨by simp, ?_⟩
+        rw [← h]
+        simp only [Nat.zero_add, List.take_succ_cons, List.take_zero]
+        rw [performRedirs_cons_err o w t r [] e hp]
+      | succ j => simp at h
+    | ok s =>
+      simp only [performSteps, hp] at h
+      cases i with
+      | zero =>
+        simp only [List.getElem?_cons_zero, Option.some.injEq] at h
+        refine ⟨by simp, ?_⟩
+        rw [← h]
+        simp only [Nat.zero_add, List.take_succ_cons, List.take_zero]
+        rw [performRedirs_cons_ok o w t r [] s hp]
+        rfl
+      | succ j =>
+        simp only [List.getElem?_cons_succ] at h
+        obtain ⟨hlt, hpe⟩ := ih _ _ j h
+        refine ⟨by simpa using hlt, ?_⟩
+        rw [hpe]
+        simp only [List.take_succ_cons]
+        rw [performRedirs_cons_ok o w t r (rs.take (j+1)) s hp]
+
+/-- one step is recorded for every item that was tried: the successful ones and the failing one -/
+theorem performSteps_length (o : Oracle W) (w : W) (t : FdTable) (rs : List Redir) :
+    (performSteps o w t rs).length =
+      (performRedirs o w t rs).saved.length + (if (performRedirs o w t rs).err.isSome then 1 else 0) := by
+  induction rs generalizing w t with
+  | nil => rfl
+  | cons r rs ih =>
+    cases hp : (perform o w t r).r with
+    | error e => rw [performRedirs_cons_err o w t r rs e hp]; simp [performSteps, hp]
+    | ok s =>
+      rw [performRedirs_cons_ok o w t r rs s hp]
+      simp only [performSteps, hp, List.length_cons, ih]
+      omega
+
+/-- the last recorded step is the state the whole loop ends in (also when it stopped at a failure) -/
+theorem performSteps_last (o : Oracle W) (w : W) (t : FdTable) (rs : List Redir) (hne : rs ≠ []) :
+    (performSteps o w t rs).getLast? = some ((performRedirs o w t rs).w, (performRedirs o w t rs).t) := by
+  induction rs generalizing w t with
+  | nil => exact absurd rfl hne
+  | cons r rs ih =>
+    cases hp : (perform o w t r).r with
+    | error e => rw [performRedirs_cons_err o w t r rs e hp]; simp [performSteps, hp]
+    | ok s =>
+      rw [performRedirs_cons_ok o w t r rs s hp]
+      simp only [performSteps, hp]
+      cases rs with
+      | nil => simp [performSteps, performRedirs]
+      | cons r2 rs2 =>
+        have := ih (perform o w t r).w (perform o w t r).t (by simp)
+        rw [List.getLast?_cons_of_ne_nil] <;> first | exact this | skip
+        cases hp2 : (perform o (perform o w t r).w (perform o w t r).t r2).r <;> simp [performSteps, hp2]
+
+/-- a successful `perform` changes nothing but its target and the slot of its saved copy -/
+theorem perform_frame (o : Oracle W) (w : W) (t : FdTable) (r : Redir) (s : SavedFd)
+    (h : (perform o w t r).r = .ok s) (fd : Fd) (hne : fd ≠ r.fd) (hns : s.save ≠ some fd) :
+    (perform o w t r).t.get fd = t.get fd := by
+  rcases perform_spec o w t r with ⟨s', hs', hp⟩ | ⟨e, he, _⟩
+  · rw [h] at hs'; cases hs'
+    cases hsv : s.save with
+    | none => exact (hp.none_case hsv).2.frame fd hne
+    | some sv =>
+      obtain ⟨e, _, _, _, _, hch⟩ := hp.some_case sv hsv
+      rw [hch.frame fd hne]
+      have : fd ≠ sv := fun heq => hns (by rw [hsv, heq])
+      simp [this]
+  · rw [h] at he; cases he
+
+/-- a whole list — whether it succeeds or stops part-way — changes nothing but the targets it names
+    and the slots of the saved copies the guard still holds -/
+theorem performRedirs_frame (o : Oracle W) (w : W) (t : FdTable) (rs : List Redir) (fd : Fd)
+    (hnt : ∀ r ∈ rs, r.fd ≠ fd) (hns : ∀ s ∈ (performRedirs o w t rs).saved, s.save ≠ some fd) :
+    (performRedirs o w t rs).t.get fd = t.get fd := by
+  induction rs generalizing w t with
+  | nil => rfl
+  | cons r rs ih =>
+    cases hp : (perform o w t r).r with
+    | error e =>
+      rw [performRedirs_cons_err o w t r rs e hp]
+      rcases perform_spec o w t r with ⟨s, hs, _⟩ | ⟨e', _, heq⟩
+      · rw [hp] at hs; cases hs
+      · exact heq.2 fd
+    | ok s =>
+      rw [performRedirs_cons_ok o w t r rs s hp] at hns ⊢
+      simp only at hns ⊢
+      rw [ih _ _ (fun r' hr' => hnt r' (List.mem_cons_of_mem _ hr'))
+        (fun s' hs' => hns s' (List.mem_cons_of_mem _ hs'))]
+      exact perform_frame o w t r s hp fd (Ne.symm (hnt r (List.mem_cons_self ..)))
+        (hns s (List.mem_cons_self ..))
+
 end YashModel.Redir
